@@ -47,7 +47,7 @@ Definition wf_op (o : op) : bool :=
 
 (* the two's-complement field as the code computes it: ((v as i64) << (64-n)) as u64 *)
 Definition twoc_shifted (v : Z) (n : N) : N :=
-  Z.to_N (Z.modulo (v * 2 ^ (Z.of_N (64 - n))) (2 ^ 64)).
+  Z.to_N (Z.modulo (v * ZP2 (Z.of_N (64 - n))) (ZP2 64)).
 
 (* ideal semantics *)
 Definition ideal_step (b : bstr) (o : op) : bstr :=
@@ -68,18 +68,18 @@ Definition ideal_run (ops : list op) : bstr := fold_left ideal_step ops bempty.
 
 Record sink := mkSink { rst : list N; blen : N }.
 Definition sempty : sink := mkSink [] 0.
-Definition storage (s : sink) : list N := rev (rst s).
+Definition storage (s : sink) : list N := rev_append (rst s) [].   (* linear-time reverse *)
 
 (* paddings(): ((!bitlength).wrapping_add(1)) & (BITS-1) *)
 Definition pad (W : N) (s : sink) : N := (W - blen s mod W) mod W.
 
-Definition mask_msbs (w v n : N) : N := ((v mod 2 ^ w) / 2 ^ (w - n)) * 2 ^ (w - n).
+Definition mask_msbs (w v n : N) : N := (DIV2 (MOD2 v w) (w - n)) * P2 (w - n).
 
 (* pushes k bytes taken from the most-significant side of the w-bit value val *)
 Fixpoint push_top_bytes (k : nat) (w val : N) (st : list N) : list N :=
   match k with
   | O => st
-  | S k' => push_top_bytes k' w ((val * 256) mod 2 ^ w) ((val / 2 ^ (w - 8)) :: st)
+  | S k' => push_top_bytes k' w (MOD2 (val * 256) w) ((DIV2 val (w - 8)) :: st)
   end.
 
 Definition or_last (site b : N) (st : list N) : Res (list N) :=
@@ -100,8 +100,8 @@ Definition u8_write_msbs (w v n : N) (s : sink) : Res sink :=
     do (val1, n1, st1, fin) <-
       (if r =? 0 then Ok (val, n, rst s, false)
        else
-         do st' <- or_last 555 ((val / 2 ^ (w - r)) mod 256) (rst s);
-         let val' := (val * 2 ^ r) mod 2 ^ w in
+         do st' <- or_last 555 (MOD2 (DIV2 val (w - r)) 8) (rst s);
+         let val' := MOD2 (val * P2 r) w in
          if n <=? r then Ok (val', n, st', true) else Ok (val', n - r, st', false));
     if (fin : bool) then Ok (mkSink st1 bl)
     else
@@ -109,15 +109,15 @@ Definition u8_write_msbs (w v n : N) (s : sink) : Res sink :=
       let st2 := push_top_bytes (N.to_nat btw) w val1 st1 in
       let n2 := n1 mod 8 in
       if 0 <? n2 then
-        let val2 := (val1 * 2 ^ (8 * btw)) mod 2 ^ w in
-        Ok (mkSink (((val2 / 2 ^ (w - 8)) mod 256) :: st2) bl)
+        let val2 := MOD2 (val1 * P2 (8 * btw)) w in
+        Ok (mkSink ((MOD2 (DIV2 val2 (w - 8)) 8) :: st2) bl)
       else Ok (mkSink st2 bl).
 
 Definition u8_write (w v : N) (s : sink) : Res sink :=
   let nb := blen s + w in
   let tail := pad 8 s in
   do s1 <- (if 0 <? tail then u8_write_msbs w v tail s else Ok s);
-  let val := ((v mod 2 ^ w) * 2 ^ tail) mod 2 ^ w in
+  let val := MOD2 ((MOD2 v w) * P2 tail) w in
   Ok (mkSink (push_top_bytes (N.to_nat (w / 8)) w val (rst s1)) nb).
 
 Definition u8_align (s : sink) : sink := mkSink (rst s) (blen s + pad 8 s).
@@ -129,7 +129,7 @@ Definition u8_write_bytes (bs : list N) (s : sink) : sink :=
 Definition u8_write_lsbs (w v n : N) (s : sink) : Res sink :=
   if n =? 0 then Ok s
   else if w <? n then Panic 593
-  else u8_write_msbs w (((v mod 2 ^ w) * 2 ^ (w - n)) mod 2 ^ w) n s.
+  else u8_write_msbs w (MOD2 ((MOD2 v w) * P2 (w - n)) w) n s.
 
 Definition u8_write_zeros (n : N) (s : sink) : sink :=
   let p := pad 8 s in
@@ -144,9 +144,9 @@ Definition u8_write_zeros (n : N) (s : sink) : sink :=
 Definition u64_write_msbs_impl (w val n : N) (s : sink) : sink :=
   let r := pad 64 s in
   let bl := blen s + n in
-  let val64 := val * 2 ^ (64 - w) in
-  let last_setter := val64 / 2 ^ ((64 - r) mod 64) in      (* wrapping_shr(64 - r) *)
-  let val' := (val64 * 2 ^ (r mod 64)) mod 2 ^ 64 in        (* wrapping_shl(r) *)
+  let val64 := val * P2 (64 - w) in
+  let last_setter := DIV2 val64 ((64 - r) mod 64) in      (* wrapping_shr(64 - r) *)
+  let val' := MOD2 (val64 * P2 (r mod 64)) 64 in        (* wrapping_shl(r) *)
   let st1 := if r =? 0 then rst s
              else match rst s with [] => [] | x :: t => N.lor x last_setter :: t end in
   let st2 := if r <? n then val' :: st1 else st1 in
@@ -160,7 +160,7 @@ Definition u64_write_msbs (w v n : N) (s : sink) : Res sink :=
 Definition u64_write_lsbs (w v n : N) (s : sink) : Res sink :=
   if n =? 0 then Ok s
   else if w <? n then Panic 683
-  else Ok (u64_write_msbs_impl w (((v mod 2 ^ w) * 2 ^ (w - n)) mod 2 ^ w) n s).
+  else Ok (u64_write_msbs_impl w (MOD2 ((MOD2 v w) * P2 (w - n)) w) n s).
 
 Definition u64_write (w v : N) (s : sink) : Res sink := u64_write_msbs w v w s.
 
@@ -250,7 +250,7 @@ Definition inv (k : kind) (s : sink) : Prop :=
 Fixpoint be_bytes (k : nat) (w val : N) : list N :=
   match k with
   | O => []
-  | S k' => (val / 2 ^ (w - 8)) :: be_bytes k' w ((val * 256) mod 2 ^ w)
+  | S k' => (DIV2 val (w - 8)) :: be_bytes k' w (MOD2 (val * 256) w)
   end.
 Definition export_bytes (k : kind) (s : sink) : list N :=
   match k with
